@@ -154,9 +154,10 @@ def build_harness(variant="asan"):
 # ------------------------------------------------------------------------------------------
 # running scripts
 
-ASAN_ENV = {"ASAN_OPTIONS": "detect_leaks=1:abort_on_error=0:exitcode=97:allocator_may_return_null=1",
+ASAN_ENV = {"LOCPATH": os.path.join(VERIF, "build", "locale"),
+            "ASAN_OPTIONS": "detect_leaks=1:abort_on_error=0:exitcode=97:allocator_may_return_null=1",
             "UBSAN_OPTIONS": "print_stacktrace=1:halt_on_error=1:exitcode=98",
-            "LSAN_OPTIONS": "exitcode=96"}
+            "LSAN_OPTIONS": "exitcode=96:print_suppressions=0:suppressions=" + os.path.join(VERIF, "tools", "lsan.supp")}
 
 
 class Runner:
